@@ -45,6 +45,7 @@ var (
 	ErrInvalidBlockTimestamp               = errors.New("invalid block timestamp")
 	ErrInvalidWarpSignature                = errors.New("invalid warp signature")
 	ErrInvalidSignatureType                = errors.New("invalid signature type")
+	ErrExpiredChunkCert                    = errors.New("block references an expired chunk certificate")
 )
 
 type ChainState interface {
@@ -334,6 +335,14 @@ func (n *Node[T]) Verify(ctx context.Context, parent Block, block Block) error {
 			n.chainState,
 		); err != nil {
 			return fmt.Errorf("%w %s: %w", ErrInvalidWarpSignature, chunkCert.ChunkID, err)
+		}
+	}
+
+	// A chunk that expired before the block's timestamp may no longer be referenced: replay
+	// protection only remembers a certificate until it expires, so it could be included again.
+	for _, chunkCert := range block.ChunkCerts {
+		if chunkCert.Expiry < block.Timestamp {
+			return fmt.Errorf("%w %s: expiry %d < block timestamp %d", ErrExpiredChunkCert, chunkCert.ChunkID, chunkCert.Expiry, block.Timestamp)
 		}
 	}
 
